@@ -557,6 +557,54 @@ def paired_faults(mon: Monitor, ctx, bases: int, pairs: int):
         ctx.count("paired_bases")
 
 
+def long_run_cases(mon: Monitor, ctx):
+    """more than 2^16 decryptions in one process, valid and tampered tokens interleaved: the verdict of the N-th call is that of the first"""
+    j = J.load()
+    key = gen.new_oct(128)
+    jk = j.key(key)
+    A = ["dir", "A128GCM"]
+    n = 70000 if ctx.tier == "quick" else 300000
+    good = [g.make("compact", "A128GCM", [("dir", key, None)], b"plaintext %d" % i).token for i in range(50)]
+    wrong_accept = wrong_reject = 0
+    first = None
+    for i in range(n):
+        t = good[i % 50]
+        if i % 3:
+            seg = 2 + (i % 3)                      # iv, ciphertext or tag
+            parts = t.split(".")
+            x = parts[seg]
+            pos = (i // 3) % len(x)
+            parts[seg] = x[:pos] + ("A" if x[pos] != "A" else "B") + x[pos + 1:]
+            t2 = ".".join(parts)
+            try:
+                j.jwe.decrypt_compact(t2, jk, algorithms=A)
+                # a replaced character may leave the decoded octets unchanged (unused bits of the last character)
+                if [b64u_dec_lenient(p_) for p_ in parts] != [b64u_dec_lenient(p_) for p_ in t.split(".")]:
+                    wrong_accept += 1
+                    first = first or ("accepted-tampered", i, t2)
+            except Exception:
+                pass
+        else:
+            try:
+                if j.jwe.decrypt_compact(t, jk, algorithms=A).plaintext != b"plaintext %d" % (i % 50):
+                    raise ValueError("plaintext")
+            except Exception:
+                wrong_reject += 1
+                first = first or ("rejected-valid", i, t)
+        if i % 5000 == 0 and ctx.out_of_time():
+            n = i
+            break
+    ctx.count("long_run_calls", n)
+    ctx.ev()
+    ctx.nontrivial(("long-run", n))
+    if wrong_accept:
+        ctx.violation("long-run:tampered-accepted", f"{wrong_accept} of {n} decryptions in one process returned plaintext for a tampered token, the first at call #{first[1]}",
+                      {"family": "long-run", "call": first[1], "token": first[2], "key": key})
+    if wrong_reject:
+        ctx.violation("long-run:valid-rejected", f"{wrong_reject} of {n} decryptions in one process refused a valid token, the first at call #{first[1]}",
+                      {"family": "long-run", "call": first[1], "token": first[2], "key": key})
+
+
 def plan(tier):
     items = []
     encs = g.ENCS
@@ -645,6 +693,10 @@ def run_shard(ctx):
                 b2 = EBase("compact", o.value, {}, base.plaintext, base.recs, json.loads(b64u_dec(o.value.split(".")[0])))
                 run_base(mon, b2, None, ctx, families={"respell-protected", "noncanonical-b64-protected", "bitflip-tag", "bitflip-iv", "tag-truncate",
                                                        "iv-truncate", "tag-extend", "nonempty-ek-direct", "zip-added", "tag-boundary-shift", "iv-boundary-shift", "whitespace-or-padding"})
+    if ctx.shard == 15:
+        mon.tr.stop()
+        long_run_cases(mon, ctx)
+        mon.tr = Tracer(_select).start()
     # paired faults: a sample on the quick tier, until the budget ends on the thorough tier
     paired_faults(mon, ctx, 2 if ctx.tier == "quick" else 10 ** 6, 150 if ctx.tier == "quick" else 400)
     mon.tr.stop()
